@@ -97,6 +97,8 @@ func sessionPost(x *concExec) {
 	}
 }
 
+var ip4c = netip.MustParseAddr("192.168.0.12")
+
 func c09Scenarios() []*concScenario {
 	var list []*concScenario
 	add := func(name string, maxClock int, body func(x *concExec), post func(x *concExec)) {
@@ -215,6 +217,40 @@ func c09Scenarios() []*concScenario {
 		)
 		vsched.WaitIdle()
 		x.observe(fmt.Sprintf("hosts=%d notes=%d", len(s.GetHosts()), drain(s)))
+		closeSession(x, s)
+	}, sessionPost)
+
+	// H15: three API goroutines next to the packet loop while purge is due ("any number of goroutines": one caller
+	// more than the other harnesses): capture toggles || DHCP offer/update || readers || IP change on the loop
+	add("H15", 3, func(x *concExec) {
+		concReset()
+		s, _ := concSession()
+		x.data["session"] = s
+		parseNotify(s, frame4(env.MAC1, ip4a))
+		parseNotify(s, frame4(env.MAC2, ip4b))
+		vsched.Advance(int64(packet.DefaultOfflineDeadline + time.Minute)) // purge is due: c1/a and c2/b are about to go offline
+		threads(
+			func() { // the packet loop: c1 moves to a new address, c2 is seen again
+				parseNotify(s, frame4(env.MAC1, ip4c))
+				parseNotify(s, frame4(env.MAC2, ip4b))
+			},
+			func() {
+				s.Capture(env.MAC1)
+				s.IsCaptured(env.MAC1)
+				s.Release(env.MAC1)
+			},
+			func() {
+				s.SetDHCPv4IPOffer(env.MAC2, ip4a, packet.NameEntry{Name: "n2"})
+				s.DHCPv4Update(env.MAC2, ip4a, packet.NameEntry{Name: "n2"})
+			},
+			func() {
+				s.FindIP(ip4a)
+				s.IPAddrs(env.MAC1)
+				s.GetHosts()
+			},
+		)
+		vsched.WaitIdle()
+		x.observe(fmt.Sprintf("hosts=%d notes=%d captured=%v", len(s.GetHosts()), drain(s), s.IsCaptured(env.MAC1)))
 		closeSession(x, s)
 	}, sessionPost)
 
@@ -678,8 +714,8 @@ func raFrame(mac []byte, src netip.Addr, flags byte, lifetime uint16, options []
 
 func c09Run(c *core.Ctx, args []string) {
 	c.Res.Level = "model_checking"
-	c.Res.Rule = "stateless DFS over every schedule of each harness H1..H14, H1b, H4b, H5c, H6b, H6c, H7c (2-3 API/packet-loop threads plus the goroutines the code starts itself plus the clock) up to the deviation bound (thorough: each harness also with its threads started in the two rotated orders); every execution runs to completion under the controlled scheduler; oracles: no deadlock, no panic, no data race (race detector build, scheduler hand-offs invisible to it), table invariant at the final quiescent point, no goroutine left after Close. distinct = distinct observation vectors"
-	c.Res.Assumptions = []string{"scheduling points at every lock, channel, spawn, timer and connection write of the instrumented packages; unsynchronised accesses are caught by the race detector on the explored schedules rather than interleaved", "bounded by the deviation (preemption) bound and the clock horizon; at most 3 harness threads"}
+	c.Res.Rule = "stateless DFS over every schedule of each harness H1..H15, H1b, H4b, H5c, H6b, H6c, H7c (2-4 API/packet-loop threads plus the goroutines the code starts itself plus the clock) up to the deviation bound (thorough: each harness also with its threads started in the two rotated orders); every execution runs to completion under the controlled scheduler; oracles: no deadlock, no panic, no data race (race detector build, scheduler hand-offs invisible to it), table invariant at the final quiescent point, no goroutine left after Close. distinct = distinct observation vectors"
+	c.Res.Assumptions = []string{"scheduling points at every lock, channel, spawn, timer and connection write of the instrumented packages; unsynchronised accesses are caught by the race detector on the explored schedules rather than interleaved", "bounded by the deviation (preemption) bound and the clock horizon; at most 4 harness threads (H15: three API callers next to the packet loop, purge and the notification consumer)"}
 	name := strings.TrimSuffix(c.Job, ".race")
 	bound := 2 // both tiers; the thorough tier adds the rotated thread orders of every harness
 	if v, ok := c.Args["bound"]; ok {
@@ -690,6 +726,9 @@ func c09Run(c *core.Ctx, args []string) {
 			b := bound
 			if strings.HasPrefix(sc.name, "H1b") && strings.HasSuffix(c.Job, ".race") {
 				b++ // a small harness whose interesting schedules (purge preempted between its scan and its action, the packet loop in between) need three deviations
+			}
+			if strings.HasPrefix(sc.name, "H15") && !c.Thorough() {
+				b-- // four harness threads: deviation bound 1 on every change (≈ 5 k schedules), bound 2 (≈ 230 k schedules, two minutes) in the thorough tier
 			}
 			exploreScenario(c, "C09", sc, b)
 		}
